@@ -3,6 +3,6 @@
 from boxlist import *
 body = ""
 for e in LEAVES:
-    body += harness(e["tier"], "h04rt", e["name"], e["unwind"],
+    body += harness("x" if e["name"] in C04_EXCLUDE else e["tier"], "h04rt", e["name"], e["unwind"],
                     "crate::c04_roundtrip!(%s, %s, %d);" % (e["ty"], e["any"], nb(e)))
 write_gen("c04.rs", "c04.py", body)
